@@ -307,6 +307,59 @@ theorem C08_subscribe_lossy_partial (p : Option (Pred ι μ)) (items : List (ι 
     simp only [List.append_nil] at hfold
     rw [hfold, viewOf_itemSlice p its' hn']
 
+omit [DecidableEq μ] in
+/-- The lossy theorem for ANY NUMBER of subscribers and `Bus.Send` taken apart
+(`ScVerif/C08/SubscribeSend.lean`): subscriber `j` of `n`, idle after `pre` with nothing on its way to it
+(`pendFor j = []`: no commit unpublished, no `Send` in flight whose copy contains it), takes its seed; whatever
+all writers, all other subscribers and the bus do afterwards (`post`), and under EVERY recv/emit pattern of
+its merge machine fed with what it was sent: what it is delivered is a well-formed history of its seed's view,
+and once the machine is drained and nothing is on its way to it, its fold is `List(WithInclude preds[j])`. -/
+theorem C08_subscribe_lossy_partial_many (preds : List (Option (Pred ι μ))) (items : List (ι × μ))
+    (hn : NodupKeys items) (n : Nat) (pre post : List (FStep ι μ)) (j : Nat) (hj : j < n)
+    (hidle : (match (fsysRun true preds (FSys.init items n) pre).subs.getD j .idle with
+      | .idle => true | _ => false) = true)
+    (hclean : (fsysRun true preds (FSys.init items n) pre).pendFor j = []) :
+    let s := fsysRun true preds (FSys.init items n) (pre ++ .snapshot j :: post)
+    let p := preds.getD j none
+    match s.subs.getD j .idle with
+    | .listening seed recv =>
+      ∀ ms : List (Move (Change ι μ)), inputs ms = recv →
+        let c := run Cfg.init ms
+        WFHist (viewOf seed) (c.emitted.filterMap (includeChange p)) ∧
+        (c.st.pending = [] → s.pendFor j = [] →
+          fold (c.emitted.filterMap (includeChange p)) (viewOf seed) = viewOf (itemSlice p s.items))
+    | _ => True := by
+  have hinit : (FSys.init items n : FSys ι μ).proj j = Sys.init items := by
+    simp only [FSys.proj, FSys.pendFor, FSys.init, Sys.init, Sys.mk.injEq, true_and, and_true, List.append_nil]
+    simp [List.getD, hj]
+  obtain ⟨pre', hpre⟩ := fsysRun_proj preds (FSys.init items n) pre j (FInv_init items n)
+  rw [hinit] at hpre
+  have hinv0 := fsysRun_FInv preds (FSys.init items n) pre (FInv_init items n)
+  have hlen0 : (fsysRun true preds (FSys.init items n) pre).subs.length = n := by
+    rw [fsysRun_length]; simp [FSys.init]
+  have hsnap := fsysStep_snapshot_proj preds (fsysRun true preds (FSys.init items n) pre) j (by omega)
+  have hinv1 := (fsysStep_proj preds _ (.snapshot j) j hinv0).1
+  obtain ⟨post', hpost⟩ := fsysRun_proj preds _ post j hinv1
+  have hfinal : (fsysRun true preds (FSys.init items n) (pre ++ .snapshot j :: post)).proj j
+      = sysRun true (preds.getD j none) (Sys.init items) (pre' ++ .snapshot :: post') := by
+    have h1 : fsysRun true preds (FSys.init items n) (pre ++ .snapshot j :: post)
+        = fsysRun true preds (fsysStep true preds (fsysRun true preds (FSys.init items n) pre) (.snapshot j)) post := by
+      rw [fsysRun_append]; rfl
+    rw [h1, hpost, hsnap, hpre, sysRun_append]
+    rfl
+  have hidle' : (sysRun true (preds.getD j none) (Sys.init items) pre').sub = .idle := by
+    rw [← hpre]
+    simp only [FSys.proj]
+    cases hsub : (fsysRun true preds (FSys.init items n) pre).subs.getD j .idle with
+    | idle => rfl
+    | snapping seed => rw [hsub] at hidle; simp at hidle
+    | listening seed recv => rw [hsub] at hidle; simp at hidle
+  have hclean' : (sysRun true (preds.getD j none) (Sys.init items) pre').pend = [] := by
+    rw [← hpre]; exact hclean
+  have this := C08_subscribe_lossy_partial (preds.getD j none) items hn pre' post' hidle' hclean'
+  rw [← hfinal] at this
+  exact this
+
 /-! ### what the theorems rest on: no turn writes to the object it was handed
 
 Messages are pairs (title, room); subscriber 1 has no predicate and a read mask keeping the title (the room
@@ -400,6 +453,18 @@ published before the subscriber took its seed -/
 example :
     (sysRun true (none : Option (Pred Nat Nat)) (Sys.init [(1, 10)]) [.commit (.update 1 20), .publish]).pend = [] ∧
     (match (sysRun true (none : Option (Pred Nat Nat)) (Sys.init [(1, 10)]) [.commit (.update 1 20), .publish]).sub with
+      | .idle => true | _ => false) = true := by decide
+
+/-- the hypotheses of `C08_subscribe_lossy_partial_many` hold for subscriber 1 after a run in which a commit's
+`Send` is IN FLIGHT towards subscriber 0 only: nothing is on its way to subscriber 1, which is still idle -/
+example :
+    (fsysRun true [none, none] (FSys.init [((1 : Nat), (10 : Nat))] 2)
+      [.snapshot 0, .listen 0, .commit (.update 1 20), .sendStart]).pendFor 1 = [] ∧
+    (fsysRun true [none, none] (FSys.init [((1 : Nat), (10 : Nat))] 2)
+      [.snapshot 0, .listen 0, .commit (.update 1 20), .sendStart]).pendFor 0
+        = [mkChange 1 .update 0 (some 10) (some 20)] ∧
+    (match (fsysRun true [none, none] (FSys.init [((1 : Nat), (10 : Nat))] 2)
+      [.snapshot 0, .listen 0, .commit (.update 1 20), .sendStart]).subs.getD 1 .idle with
       | .idle => true | _ => false) = true := by decide
 
 end examples
